@@ -19,7 +19,7 @@ def families(tier):
     yield "C11 decoy sequences (length <= 2)", spaces.c11_short(2)
     import itertools
     yield "trees mixing unreadable (invalid UTF-8) files with readable ones: C14 placements interleaved with 108 invalid files", itertools.chain(spaces.c14_short(), spaces.invalid_utf8_files())
-    yield "multi-insertion family", spaces.multi_insertion(big_counts=(1000, 5000) if tier == "thorough" else ())
+    yield "multi-insertion family", spaces.multi_insertion(big_counts=(1000, 2000) if tier == "thorough" else ())
     yield "token sequences of length <= %d" % (3 if tier == "thorough" else 2), spaces.token_sequences(3 if tier == "thorough" else 2)
     yield "real corpora%s" % (" + single-token-edit neighbourhoods" if tier == "thorough" else ""), spaces.corpus_files(tier == "thorough", None if tier == "thorough" else 200_000)
     if tier == "thorough":
